@@ -494,3 +494,37 @@ def engine_models_agree_with_python_on_what_the_lemmas_use(n: int):
     assert V.fields() == {"P": 1} and W.fields() is not V.fields() and len(W.fields()) == 3, "class state is per class"
     assert Flags.width() == (len(Flags.fields()) + 7) // 8 and names_on(Flags.FUEL | Flags.CLAD) == ["CLAD", "FUEL"]
     assert Flags["DUCT"] == Flags.DUCT and int(Flags.PRIMARY) == 1 and int(Flags.SECONDARY) == 2
+
+
+# ----------------------------------------------------------------------------- declaration order is not bit order
+def mk_mixed(order, explicit):
+    """a Flag class declared in `order`; the names in `explicit` get that explicit bit value, the others auto():
+    auto() takes the free bits in declaration order, so the bit order differs from the declaration order while the bit
+    values stay gap-free (1, 2, 4, ...)"""
+    return type(Flag)("M", (Flag,), {n: (explicit[n] if n in explicit else auto()) for n in order})
+
+
+MIXED = [(["FUEL", "CLAD"], {"CLAD": 1}), (["X", "Y", "Z"], {"Z": 1}), (["X", "Y", "Z"], {"Y": 1}), (["P", "Q", "R", "S"], {"S": 1, "R": 2})]
+
+
+@lemma(gen={"c": (0, 3), "r": (0, 3)})
+def classes_declared_in_another_order_than_their_bits_keep_their_names(c: int, r: int):
+    """Flag classes whose DECLARATION order differs from their bit order (explicit low bits declared last, auto() for the
+    rest: gap-free values): every flag set written and read with the same class - and read with a class declaring the
+    same fields in yet another way - comes back with the same names (the stored flag_order must describe the bit
+    positions the rows are written in)."""
+    c = choose(c, 0, 3)
+    r = choose(r, 0, 3)
+    order, explicit = MIXED[c]
+    W = mk_mixed(order, explicit)
+    bits = sorted([int(getattr(W, n)) for n in order])
+    assert bits == [2 ** k for k in range(len(order))], "gap-free bit values"
+    assert round_trip(W, order, W, len(order)) == [], "same class: same names on after the round trip"
+    if len(MIXED[r][0]) == len(order):
+        order2, explicit2 = MIXED[r]
+        if sorted(order2) == sorted(order):
+            R = mk_mixed(order2, explicit2)
+            assert round_trip(W, order, R, len(order)) == [], "another declaration of the same fields: same names"
+    R2 = mk(sorted(order))
+    assert round_trip(W, order, R2, len(order)) == [], "an all-auto reader with the same fields: same names"
+    assert round_trip(R2, sorted(order), W, len(order)) == [], "and the other way round"
